@@ -9,6 +9,7 @@ import (
 	"runtime"
 	"sync"
 
+	"verifharness/devmodx"
 	"verifharness/pluginx"
 )
 
@@ -101,6 +102,48 @@ func init() {
 		}
 		defer f.Close()
 		_ = json.NewEncoder(f).Encode(res)
+		return 0
+	}
+}
+
+func init() {
+	// vh devmod-seq -n N -seed S -out results.json : scripted devmod sequences from a proven device (C10)
+	commands["devmod-seq"] = func(args []string) int {
+		fs := flag.NewFlagSet("devmod-seq", flag.ExitOnError)
+		n := fs.Int("n", 0, "number of scripts (0: all)")
+		seed := fs.Int64("seed", 1, "seed")
+		out := fs.String("out", "", "results JSON")
+		_ = fs.Parse(args)
+		all := devmodx.Scripts()
+		rng := rand.New(rand.NewSource(*seed))
+		rng.Shuffle(len(all), func(i, j int) { all[i], all[j] = all[j], all[i] })
+		if *n > 0 && *n < len(all) {
+			all = all[:*n]
+		}
+		res := make([]devmodx.Result, len(all))
+		var wg sync.WaitGroup
+		ch := make(chan int)
+		for w := 0; w < runtime.NumCPU(); w++ {
+			wg.Add(1)
+			go func() {
+				defer wg.Done()
+				for i := range ch {
+					res[i] = devmodx.Run(all[i])
+				}
+			}()
+		}
+		for i := range all {
+			ch <- i
+		}
+		close(ch)
+		wg.Wait()
+		f, err := os.Create(*out)
+		if err != nil {
+			fmt.Fprintln(os.Stderr, err)
+			return 2
+		}
+		defer f.Close()
+		_ = json.NewEncoder(f).Encode(map[string]any{"total": len(devmodx.Scripts()), "results": res})
 		return 0
 	}
 }
